@@ -255,6 +255,16 @@ def find_char_from_payload(h, depth=0):
     """char::from_u32(<user number>) — a character chosen by the user."""
     if not isinstance(h, dict) or depth > 8:
         return None
+    if h.get("v") == "str":
+        # the character rendered as text (`c.to_string()`, `c.encode_utf8(..)`, `format!("{c}")`)
+        for p_ in h.get("parts", []):
+            if p_[0] == "h":
+                r = find_char_from_payload(p_[1], depth + 1)
+                if r:
+                    return r
+        return None
+    if h.get("v") in ("some", "ok") and isinstance(h.get("x"), dict):
+        return find_char_from_payload(h["x"], depth + 1)
     if h.get("kind") == "call" and (h.get("callee") or "").startswith("char::from"):
         for a in h.get("args", []):
             if "$" in emit.canon(a):
